@@ -722,20 +722,20 @@ Proof.
         pose proof (after_head_ok (p_id it) (p_kind it) r 0 (p_skip it) false False _ Hwf eq_refl eq_refl) as Hah.
         cbn [rd_sym] in Hrd0. rewrite Hrd0 in Hah. destruct Hah as [Hnil _].
         apply (Hdone r A'); [reflexivity| |].
-        -- rewrite Hnil in H5. exact H5.
-        -- cbn. rewrite twire_cons, Hnil. reflexivity.
+        -- rewrite H5. apply (f_equal (fun l => l ++ wires A')) in Hnil. exact Hnil.
+        -- rewrite twire_cons. apply (f_equal (fun l => (p_id it, SHead (r_head r)) :: l)) in Hnil. symmetry. exact Hnil.
       * destruct H5 as (r & A' & rest' & -> & Hp & Hg & Hnw & Hph). rewrite Hpend in Hp.
         destruct rest' as [|a rest']; [cbn in Hph; destruct Hph as [Hn Hl]; cbn in Hl; congruence|].
         cbn in Hp. injection Hp as <- Hp.
         pose proof (rd_body_ok (p_id it) 0 (p_skip it) false False _ r tg sy rest' Hph eq_refl) as Hb.
         rewrite Hrd0 in Hb. destruct Hb as [-> _].
-        apply (Hdone r A'); [reflexivity|exact Hp|]. rewrite <- Hg, <- app_assoc. reflexivity.
+        apply (Hdone r A'); [reflexivity|exact Hp|exact Hg].
       * destruct H5 as (r & A' & rest' & -> & Hp & Hg & Hnw & Hph). rewrite Hpend in Hp.
         destruct rest' as [|a rest']; [cbn in Hph; destruct Hph as [[|? ?] Hl]; discriminate|].
         cbn in Hp. injection Hp as <- Hp.
         pose proof (rd_body_ok (p_id it) 0 (p_skip it) false False _ r tg sy rest' Hph eq_refl) as Hb.
         rewrite Hrd0 in Hb. destruct Hb as [-> _].
-        apply (Hdone r A'); [reflexivity|exact Hp|]. rewrite <- Hg, <- app_assoc. reflexivity.
+        apply (Hdone r A'); [reflexivity|exact Hp|exact Hg].
       * destruct (too_large 0 (S cnt)); discriminate.
     + apply Hfail. eapply rd_sym_fail_not_ok; eauto.
   - (* PRReadEof *)
